@@ -165,6 +165,40 @@ def monitor_ir(ir, traits=True):
     return viol
 
 
+def colliding_modules(rng):
+    """Main and imported module define types with the SAME names; main uses
+    both the local and the imported ones (types, enum values, constants)."""
+    names = rng.sample(["Header", "Body", "Kind", "Mode", "Tail", "Item"], rng.randint(2, 4))
+    lib = ['[$default byte_order: "LittleEndian"]', '[(cpp) namespace: "gen::lib"]']
+    main = ['import "lib.emb" as other', '[$default byte_order: "BigEndian"]', '[(cpp) namespace: "gen::main"]']
+    kinds = {}
+    for n in names:
+        k = rng.choice(["struct", "enum"])
+        kinds[n] = k
+        for out, w in ((lib, rng.choice([1, 2])), (main, rng.choice([1, 2, 4]))):
+            if k == "struct":
+                out += ["struct %s:" % n, "  0 [+%d]  UInt  value" % w, "  let twice = value * 2", "  let konst = %d" % rng.randint(1, 9)]
+            else:
+                out += ["enum %s:" % n, "  [maximum_bits: 8]", "  FIRST = %d" % rng.randint(0, 3), "  SECOND = %d" % rng.randint(4, 9)]
+        kinds[n] = (k,)
+    main.append("struct User:")
+    off = 0
+    import re
+    for n in names:
+        k = kinds[n][0]
+        for prefix, src in (("", main), ("other.", lib)):
+            if k == "struct":
+                w = int(re.search(r"struct %s:\n  0 \[\+(\d)\]" % n, "\n".join(src)).group(1))
+                main.append("  %d [+%d]  %s%s  f%d" % (off, w, prefix, n, off))
+                main.append("  let c%d = %s%s.konst" % (off, prefix, n))
+                off += w
+            else:
+                main.append("  %d [+1]  %s%s  e%d" % (off, prefix, n, off))
+                main.append("  let is%d = e%d == %s%s.SECOND" % (off, off, prefix, n))
+                off += 1
+    return {"m.emb": "\n".join(main) + "\n", "lib.emb": "\n".join(lib) + "\n"}
+
+
 def gen_sources(seed, start, count):
     corpus = [c for c in textgen.corpus() if c[1].strip()]
     out = []
@@ -175,6 +209,9 @@ def gen_sources(seed, start, count):
             out.append((name, dict(files), "m.emb"))
             continue
         r = rng.random()
+        if r > 0.9:
+            out.append(("colliding-names", colliding_modules(rng), "m.emb"))
+            continue
         name, text = corpus[rng.randrange(len(corpus))]
         files = {"m.emb": text}
         if r < 0.75:
